@@ -318,8 +318,13 @@ def _render(M, a):
         out.append(html_escape(s))
         pos = m.end()
     rest = tmpl[pos:]
-    if '{{' in rest or any('{{' in x for x in out[::2]):
-        raise Unsupported('template action outside the modelled subset')
+    for piece in [rest] + out[::2]:
+        k = piece.find('{{')
+        if k >= 0:
+            if '}}' not in piece[k:]:
+                # template.Must(Parse(...)): a malformed template is a panic of the compiler, not an error value
+                raise GoPanic('panic', 'template: %s: unclosed action' % to_pystr(lang), '')
+            raise Unsupported('template action outside the modelled subset')
     out.append(rest)
     return (''.join(out), None)
 
